@@ -217,6 +217,18 @@ func c20Yaml(r *gen.Rand) (string, bool) {
 	str := func() string {
 		return []string{"", "x", "multi\nline", "with: colon", "- dash", "é日本", "'quoted'", "{a: b}", "true", "123", " lead", "null", "~"}[r.Intn(13)]
 	}
+	num := func() uint64 { // zero values and boundaries are as likely as arbitrary ones
+		switch r.Intn(4) {
+		case 0:
+			return 0
+		case 1:
+			return 1
+		case 2:
+			return ^uint64(0) >> uint(r.Intn(2))
+		default:
+			return r.U64()
+		}
+	}
 	contrib := func() []model.Contributor {
 		n := r.Intn(3)
 		var cs []model.Contributor
@@ -252,8 +264,8 @@ func c20Yaml(r *gen.Rand) (string, bool) {
 		var o model.RepoDescriptor
 		return "repo", rt(d, &o)
 	case 1:
-		d := model.BundleDescriptor{LeafSize: uint32(r.U64()), ID: str(), Message: str(), Timestamp: ts(), Contributors: contrib(),
-			BundleEntriesFileCount: r.U64(), Version: r.U64(), Deduplication: str(), RunStage: str()}
+		d := model.BundleDescriptor{LeafSize: uint32(num()), ID: str(), Message: str(), Timestamp: ts(), Contributors: contrib(),
+			BundleEntriesFileCount: num(), Version: num(), Deduplication: str(), RunStage: str()}
 		if r.Bool() {
 			d.Parents = []string{str(), str()}
 		}
@@ -263,7 +275,7 @@ func c20Yaml(r *gen.Rand) (string, bool) {
 		n := r.Intn(4)
 		var es []model.BundleEntry
 		for i := 0; i < n; i++ {
-			e := model.BundleEntry{Hash: str(), NameWithPath: str(), FileMode: 0644, Size: r.U64()}
+			e := model.BundleEntry{Hash: str(), NameWithPath: str(), FileMode: 0644, Size: num()}
 			if r.Bool() {
 				e.Timestamp = ts()
 			}
@@ -280,16 +292,16 @@ func c20Yaml(r *gen.Rand) (string, bool) {
 		d := model.DiamondDescriptor{DiamondID: str(), StartTime: ts(), EndTime: ts(), State: model.DiamondDone, Mode: model.EnableConflicts,
 			HasConflicts: r.Bool(), HasCheckpoints: r.Bool(), Tag: str(), BundleID: str()}
 		if r.Bool() {
-			d.Splits = []model.SplitDescriptor{{SplitID: str(), StartTime: ts(), EndTime: ts(), State: model.SplitDone, Contributors: contrib(), GenerationID: str(), SplitEntriesFileCount: r.U64(), Tag: str()}}
+			d.Splits = []model.SplitDescriptor{{SplitID: str(), StartTime: ts(), EndTime: ts(), State: model.SplitDone, Contributors: contrib(), GenerationID: str(), SplitEntriesFileCount: num(), Tag: str()}}
 		}
 		var o model.DiamondDescriptor
 		return "diamond", rt(d, &o)
 	case 5:
-		d := model.SplitDescriptor{SplitID: str(), StartTime: ts(), EndTime: ts(), State: model.SplitRunning, Contributors: contrib(), GenerationID: str(), SplitEntriesFileCount: r.U64(), Tag: str()}
+		d := model.SplitDescriptor{SplitID: str(), StartTime: ts(), EndTime: ts(), State: model.SplitRunning, Contributors: contrib(), GenerationID: str(), SplitEntriesFileCount: num(), Tag: str()}
 		var o model.SplitDescriptor
 		return "split", rt(d, &o)
 	case 6:
-		d := model.Context{Name: str(), WAL: str(), ReadLog: str(), Blob: str(), Metadata: str(), VMetadata: str(), Version: r.U64()}
+		d := model.Context{Name: str(), WAL: str(), ReadLog: str(), Blob: str(), Metadata: str(), VMetadata: str(), Version: num()}
 		b, err := model.MarshalContext(&d)
 		if err != nil {
 			return "context", false
